@@ -185,8 +185,17 @@ def build(spec, plain=False):
         t._vh = hashes[i]
         m.tasks.append(t)
         m.byname[t.ID] = t
-    for i, j, kind in spec.get("links", []):
-        m.tasks[j].append_input_task(m.tasks[i], task_dependency_mode=DEP[kind])
+    link_api = spec.get("link_api")  # how the links are declared: append_input_task (default), "int" (kind given as a plain integer),
+    for i, j, kind in spec.get("links", []):  # "extend" / "extend-gen" (extend_input_task_list with a list / a one-shot generator)
+        mode = DEP[kind]
+        if link_api == "int":
+            m.tasks[j].append_input_task(m.tasks[i], task_dependency_mode=int(mode))
+        elif link_api == "extend":
+            m.tasks[j].extend_input_task_list([m.tasks[i]], mode)
+        elif link_api == "extend-gen":
+            m.tasks[j].extend_input_task_list((x for x in [m.tasks[i]]), mode)
+        else:
+            m.tasks[j].append_input_task(m.tasks[i], task_dependency_mode=mode)
     chash = spec.get("chash") or list(range(len(spec.get("components", []))))
     for i, cs in enumerate(spec.get("components", [])):
         c = CompC(name=cs["name"], ID=cs.get("id") or cs["name"], space_size=cs.get("space"))
